@@ -632,7 +632,11 @@ func builtinArrayReduce(call FunctionCall) Value {
 		if length > 0 || initial {
 			var accumulator Value
 			if !initial {
-				for ; index < length; index++ {
+				for ; ; index++ {
+					if index >= length {
+						// 15.4.4.21 step 8.c: no element is present and there is no initial value.
+						panic(call.runtime.panicTypeError("Array.reduce of a receiver without elements and no initial value"))
+					}
 					if key := arrayIndexToString(index); thisObject.hasProperty(key) {
 						accumulator = thisObject.get(key)
 						index++
@@ -665,7 +669,11 @@ func builtinArrayReduceRight(call FunctionCall) Value {
 			index := length - 1
 			var accumulator Value
 			if !initial {
-				for ; index >= 0; index-- {
+				for ; ; index-- {
+					if index < 0 {
+						// 15.4.4.22 step 8.c: no element is present and there is no initial value.
+						panic(call.runtime.panicTypeError("Array.reduceRight of a receiver without elements and no initial value"))
+					}
 					if key := arrayIndexToString(index); thisObject.hasProperty(key) {
 						accumulator = thisObject.get(key)
 						index--
